@@ -450,7 +450,7 @@ func chainRunOnce(s *Summary, c *chainCase, sp chainSplit, outerPrefix string, c
 	func() {
 		defer func() { regPanic = recover() }()
 		opts := []func(*rux.Router){}
-		if c.Kind == "notallowed" || c.Kind == "na-default" || c.Kind == "default" || fbSub {
+		if c.Kind == "notallowed" || c.Kind == "na-default" || c.Kind == "na-builtin" || c.Kind == "default" || fbSub {
 			opts = append(opts, rux.HandleMethodNotAllowed)
 		}
 		if cachedDyn {
@@ -611,6 +611,14 @@ func chainRunOnce(s *Summary, c *chainCase, sp chainSplit, outerPrefix string, c
 			case float64(405):
 			default:
 				method = "OPTIONS"
+			}
+		case "na-builtin", "nf-builtin":
+			// the LAST handler of the model chain is the router's built-in 405 / 404 handler (not instrumented), all others are
+			// global middleware: the built-in handler is the last handler of the chain like any other (it starts iff they let it)
+			r.Use(hs[:n-1]...)
+			r.POST("/g/h/x", nopHandler)
+			if c.Kind == "nf-builtin" {
+				path = "/missing"
 			}
 		case "na-default": // all handlers are global middleware around the DEFAULT 405 handler; a custom NotFound is installed too
 			r.Use(hs...)
@@ -816,6 +824,21 @@ func chainRunOnce(s *Summary, c *chainCase, sp chainSplit, outerPrefix string, c
 	if c.CheckW && c.Kind != "na-default" {
 		wantU := normLog(c.Under)
 		gotU := run.rw.calls
+		if c.Kind == "na-builtin" || c.Kind == "nf-builtin" {
+			// (the text of the built-in answer is not constrained: compare the calls and the statuses, not the sizes)
+			strip := func(l [][]any) [][]any {
+				out := [][]any{}
+				for _, e := range l {
+					if e[0] == "W" {
+						out = append(out, []any{"W"})
+					} else {
+						out = append(out, e)
+					}
+				}
+				return out
+			}
+			wantU, gotU = strip(wantU), strip(gotU)
+		}
 		if !(len(gotU) == 0 && len(wantU) == 0) && !reflect.DeepEqual(gotU, wantU) {
 			s.mismatch(desc("writer", fmt.Sprintf("underlying writer received %v, spec %v", gotU, wantU)), c)
 			return
